@@ -12,7 +12,17 @@ void exec_poison_on(Plan const& p, Report& rep);
 
 extern Scenario const scen_restart, scen_durable, scen_rollback, scen_fscrash, scen_modes, scen_mpi;
 
-static char const* const CHK = "/hepsim/run.chkpt";
+// the checkpoint file name is part of the configuration space: names without extension, with several
+// dots, ending in a dot, ending in ".tmp", in a sub directory
+static std::string chk_path(Plan const& p)
+{
+    static char const* const names[] = {"/hepsim/run.chkpt", "/hepsim/run.chkpt", "/hepsim/run.chkpt", "/hepsim/chkpt",
+        "/hepsim/chkpt.tmp", "/hepsim/out.d/run.tmp", "/hepsim/run.", "/hepsim/a.b.c", "/hepsim/.hidden",
+        "/hepsim/dir.x/file", "/hepsim/x.tmp.tmp", "/hepsim/name with blanks.txt"};
+    return names[mix2(p.gseed ^ p.fseed, 4711) % (sizeof names / sizeof names[0])];
+}
+
+#define CHK (chk_path(p))
 
 // ------------------------------------------------------------------------------------------------
 // restart: C03 (+ C05 at every restart)
@@ -151,6 +161,20 @@ static void exec_restart(Plan const& p, Report& rep)
         fs().files.clear();
         u64 done = 0;
         bool dead = false;
+
+        // a restart before the first iteration: the checkpoint without results carries the user's
+        // grid / weights and parameters through text
+        bool const initial_ok = (q.integ == PLAIN) || (q.integ == VEGAS && q.grid == 1) || (q.integ == MULTI && q.wts == 1);
+        if (initial_ok && kr.chance(0.3))
+        {
+            if (!run.reload("restart before the first iteration"))
+            {
+                rep.fail("C03", "text-not-readable", roundtrip_class(q).empty() ? key : roundtrip_class(q),
+                    "checkpoint without results could not be read back or read back differently");
+                return;
+            }
+            rep.faults["restart-before-first-iteration"]++;
+        }
 
         while (done < s && !dead)
         {
@@ -1512,6 +1536,13 @@ static void exec_mpi(Plan const& p, Report& rep)
     rep.nontrivial = (P > 1);
     fs().reset();
 
+    // the paired poisoned / zeroed run under MPI (C06) first: it does not depend on the other oracles
+    if (p.variant == 3 && !p.faults.empty() && p.faults[0].kind == FLT_POISON_HASH)
+    {
+        exec_poison_on(p, rep);
+        fs().reset();
+    }
+
     Session s(p, rep);
     s.fresh();
     RunCtl ctl = ctl_from_plan(p);
@@ -1558,10 +1589,6 @@ static void exec_mpi(Plan const& p, Report& rep)
         rep.probes["single-rank-vs-serial"]++;
     }
 
-    if (p.variant == 3 && !p.faults.empty() && p.faults[0].kind == FLT_POISON_HASH)
-    {
-        exec_poison_on(p, rep);
-    }
 }
 
 Scenario const scen_mpi = {"mpi", gen_mpi, exec_mpi};
